@@ -626,6 +626,7 @@ impl ExecutionPlan for FilterExec {
                 self.batch_size,
                 self.fetch,
             ),
+            flush_each_batch: self.input.boundedness().is_unbounded(),
         }))
     }
 
@@ -1306,6 +1307,9 @@ struct FilterExecStream {
     projection: Option<ProjectionRef>,
     /// Batch coalescer to combine small batches
     batch_coalescer: LimitedBatchCoalescer,
+    /// Over an unbounded input, rows that passed the predicate must not wait for
+    /// `batch_size` further matches (which may never come): flush after every input batch
+    flush_each_batch: bool,
 }
 
 /// The metrics for `FilterExec`
@@ -1425,6 +1429,9 @@ impl Stream for FilterExecStream {
                     match status {
                         PushBatchStatus::Continue => {
                             // Keep pushing more batches
+                            if self.flush_each_batch {
+                                self.batch_coalescer.flush()?;
+                            }
                         }
                         PushBatchStatus::LimitReached => {
                             // limit was reached, so stop early
